@@ -187,6 +187,8 @@ def run(tier):
                         ops += [["m", 0, c_sz, 16], ["f", 0]]
                     ops += [["m", 2, d_sz, 16], ["f", 1], ["m", 0, a_sz + b_sz, 16], ["m", 1, 40, 16]]
                     for osd in ("b", "a", "d"):
+                        if quick and osd != "b" and c_sz not in (None, a_sz // 2):
+                            continue      # quick: the control placements only for two of the four shapes
                         plans.append({"kind": "hist", "slots": 4, "ops": ops, "os": osd, "refuse_each": osd == "b" and c_sz == 24,
                                       "walk": True, "amplify": True, "src": "directed-grow-onto-free-first-chunk"})
     # unsatisfiable requests (legal layouts far beyond what any OS grants): null, nothing lost,
@@ -222,25 +224,45 @@ def run(tier):
         real_plans.append({"kind": "rand", "seed": rng.randrange(1, 1 << 40), "n": 300, "slots": rng.choice([8, 24]),
                            "max": rng.choice([2048, 300000, 3 << 20]), "max_live": 16 << 20, "classes": classes,
                            "aligns": A.ALIGNS, "real": True, "src": "real-os-random"})
+    # real-OS runs under a kernel that REFUSES mremap / munmap (seccomp filter in the driver process:
+    # ENOMEM): histories that trim (a block above the trim threshold freed at top) while other blocks stay
+    # live; the failure paths of the raw wrappers run (syscall_free_part falls back to munmap, syscall_free
+    # reports failure and the allocator backs out); every live block is verified afterwards, the heap must
+    # stay usable
+    t_sz = k["trim_threshold"]
+    deny_plans = [p for p in real_plans if any(op[0] in ("m", "c") and op[2] >= t_sz for op in p.get("ops", []))]
+    for keep_sz in (40, 70000, 3 * t_sz, 5 * t_sz):
+        for big in (t_sz + 4096, 2 * t_sz, 3 * t_sz):
+            for tail in (False, True):
+                ops = [["m", 0, keep_sz, 16], ["m", 1, big, 16]] + ([["m", 2, 100, 16], ["f", 2]] if tail else [])
+                ops += [["f", 1], ["m", 2, 5000, 64], ["r", 0, keep_sz + 1000], ["m", 1, big // 2, 4096], ["f", 1], ["f", 2]]
+                deny_plans.append({"kind": "hist", "slots": 4, "ops": ops, "real": True, "amplify": True, "src": "real-os-refusing-kernel"})
+    deny_plans += [p for p in real_plans if p.get("kind") == "rand"][:20 if quick else 150]
     # debug build (internal assertions on): everything; release build: the sampled parts
     # (re-bound sequences, refusal at every position, random histories).  Plans are processed in
     # chunks so that memory stays bounded in the thorough tier.
     rel_fixed = []
     jobs = [("debug", bin_dbg, plans + rand_plans), ("release", bin_rel, rel_fixed + plans[n_fixed:] + rand_plans)]
     CH = 6000
-    work = [(build, bindir, pl[i:i + CH], i, False) for build, bindir, pl in jobs for i in range(0, len(pl), CH)]
-    work += [("debug-realos", bin_dbg, real_plans, 0, True), ("release-realos", bin_rel, real_plans, 0, True)]
+    work = [(build, bindir, pl[i:i + CH], i, False, None) for build, bindir, pl in jobs for i in range(0, len(pl), CH)]
+    work += [("debug-realos", bin_dbg, real_plans, 0, True, None), ("release-realos", bin_rel, real_plans, 0, True, None)]
+    work += [("release-realos-deny-mremap", bin_rel, deny_plans, 0, True, "mremap"),
+             ("debug-realos-deny-mremap", bin_dbg, deny_plans, 0, True, "mremap"),
+             ("release-realos-deny-munmap", bin_rel, deny_plans, 0, True, "munmap")]
+    if not quick:
+        work += [("release-realos-deny-both", bin_rel, deny_plans, 0, True, "mremap,munmap"),
+                 ("debug-realos-deny-munmap", bin_dbg, deny_plans, 0, True, "munmap")]
     nontrivial = set()
     first_runs = []
     stats = {"runs": 0, "events": 0, "ops": 0, "os_requests": 0, "refusals": 0, "null_results": 0, "panics": 0,
              "crashes": 0, "unmaps": 0, "real_os_runs": 0, "real_os_runs_skipped": 0}
     t0 = time.time()
-    nxt = pool.submit(A.run_driver, chk, work[0][1], work[0][2], "%s_%d" % (work[0][0], work[0][3]), 1800, work[0][4]) if work else None
-    for wi, (build, bindir, pl, off, real) in enumerate(work):
+    nxt = pool.submit(A.run_driver, chk, work[0][1], work[0][2], "%s_%d" % (work[0][0], work[0][3]), 1800, work[0][4], work[0][5]) if work else None
+    for wi, (build, bindir, pl, off, real, deny) in enumerate(work):
         events, crashes = nxt.result()
         if wi + 1 < len(work):
             w2 = work[wi + 1]
-            nxt = pool.submit(A.run_driver, chk, w2[1], w2[2], "%s_%d" % (w2[0], w2[3]), 1800, w2[4])
+            nxt = pool.submit(A.run_driver, chk, w2[1], w2[2], "%s_%d" % (w2[0], w2[3]), 1800, w2[4], w2[5])
         t1 = time.time()
         runs, bad = A.judge(chk, events, "%s_%d" % (build, off), procs=6)
         core.log("%s build, plans %d..%d: driver done at +%.1fs (%d events), TLC judge %.1fs" % (
@@ -325,6 +347,7 @@ def run(tier):
                 "allocation after a free" % ("12" if quick else "16", len(hists), depth, nalloc, nresize, len(fixed), fixed_depth, n_rot, n_rand))
     chk.assumptions = [
         "simulated OS: mmap/mremap/munmap served from a 1 GiB arena with placement below/above/disjoint/refuse; mremap never moves",
+        "refusing kernel: a seccomp filter in the real-OS driver process makes every mremap / munmap (or both) fail with ENOMEM; the k-th-call-only variants are not done",
         "real-OS runs (raw syscall wrappers of dlmalloc.rs against the real kernel): offsets relative to a 1 GiB window around the first pointer, a run whose mappings leave the window is skipped (counted); Accessible and the C04 bounds are not judged there",
         "64-bit target only; request sizes: size-class boundaries of dlmalloc.rs (1 B .. 32 MiB+1) x alignments 1..8192, not every size",
         "content: owner pattern of every live block re-read around every call (all bytes while <= 512 KiB are live, ends+probes of big blocks beyond; every byte of a block when it is reallocated or freed and at the end of a run)",
